@@ -324,37 +324,48 @@ func initCodecs() {
 	c.show = showOf(showExtensible)
 	c.hash = func(v any) string { return v.(*payload.Extensible).Hash().StringBE() }
 
-	c = reg(serCodec("consensus", func() io.Serializable { return &consensus.Payload{} }, nil))
-	c.rawGen = genConsensusBytes
-	// the wire bytes of this codec are the dBFT message (the Data of an Extensible envelope)
-	c.dec = func(b []byte) (any, int, error) {
-		p := &consensus.Payload{}
-		r := io.NewBinReaderFromBuf(wrapConsensus(b))
-		p.DecodeBinary(r)
-		return p, 0, r.Err
-	}
-	c.enc = func(v any) ([]byte, error) {
-		// re-encode from the decoded message fields (Data is dropped so that encodeData rebuilds it)
-		p := *v.(*consensus.Payload)
-		p.Extensible.Data = nil
-		outer, err := encBytes(&p)
-		if err != nil {
-			return nil, err
+	// consensus payloads in both StateRootInHeader settings (a PrepareRequest then carries a state root, also
+	// the one embedded in a RecoveryMessage)
+	for _, sr := range []bool{false, true} {
+		sr := sr
+		suf := map[bool]string{false: "0", true: "1"}[sr]
+		c = reg(serCodec("consensus"+suf, func() io.Serializable { return consensus.NewPayload(0, sr) }, nil))
+		c.rawGen = func(g *G) ([]byte, []int) { return genConsensusBytes(g, sr) }
+		// the wire bytes of this codec are the dBFT message (the Data of an Extensible envelope)
+		c.dec = func(b []byte) (any, int, error) {
+			p := consensus.NewPayload(0, sr)
+			r := io.NewBinReaderFromBuf(wrapConsensus(b))
+			p.DecodeBinary(r)
+			return p, 0, r.Err
 		}
-		e := payload.NewExtensible()
-		r := io.NewBinReaderFromBuf(outer)
-		e.DecodeBinary(r)
-		if r.Err != nil {
-			return nil, r.Err
+		c.enc = func(v any) ([]byte, error) {
+			// re-encode from the decoded message fields (Data is dropped so that encodeData rebuilds it)
+			p := *v.(*consensus.Payload)
+			p.Extensible.Data = nil
+			outer, err := encBytes(&p)
+			if err != nil {
+				return nil, err
+			}
+			e := payload.NewExtensible()
+			r := io.NewBinReaderFromBuf(outer)
+			e.DecodeBinary(r)
+			if r.Err != nil {
+				return nil, r.Err
+			}
+			return e.Data, nil
 		}
-		return e.Data, nil
+		// identity of the payload rebuilt from the decoded fields (what a node relaying / recovering it signs)
+		c.hash = func(v any) string {
+			p := *v.(*consensus.Payload)
+			p.Extensible = payload.Extensible{Category: p.Category, Sender: p.Sender, Witness: p.Witness}
+			return p.Hash().StringBE()
+		}
+		c.show = func(v any) string {
+			p := v.(*consensus.Payload)
+			return fmt.Sprintf("%d %d %d %d %s|%s", p.Type(), p.Height(), p.ValidatorIndex(), p.ViewNumber(), dumpAny(p.Payload()), dumpAny(p.Extensible.Witness))
+		}
+		c.weight = 9
 	}
-	c.hash = nil
-	c.show = func(v any) string {
-		p := v.(*consensus.Payload)
-		return fmt.Sprintf("%d %d %d %d %s|%s", p.Type(), p.Height(), p.ValidatorIndex(), p.ViewNumber(), dumpAny(p.Payload()), dumpAny(p.Extensible.Witness))
-	}
-	c.weight = 14
 
 	c = reg(serCodec("notaryreq", func() io.Serializable { return &payload.P2PNotaryRequest{} }, func(g *G) any { return g.notaryRequest() }))
 	c.hash = func(v any) string { return v.(*payload.P2PNotaryRequest).Hash().StringBE() }
